@@ -23,4 +23,5 @@ def check(ctx, rep):
     A.rule_task_closure(m, rep, 'R4')
     B.rule_handle_drop(m, rep, 'R5')
     A.rule_same_channel(m, rep, 'R6')
-    B.rule_sentinel(m, rep, count=False)
+    from .common import DropOnly
+    B.rule_sentinel(m, DropOnly(rep, ('cancel-after-every-normal-return',)), count=False)      # a respawn after a clean stop delivers nothing twice: C09/C11's clause
